@@ -823,3 +823,110 @@ B('j17_label_module_concatenated', ['C17'], 'R17.m',
 B('j17_label_module_dereferenced', ['C17'], 'R17.m', (S, _LBL_GUARD, "    ctx_parts.insert(0, fb.module.rpartition('.')[2])\n"))
 B('j17_label_module_local_unguarded', ['C17'], 'R17.m', (S, _LBL_GUARD, "    module = fb.module\n    if ctx_parts:\n        ctx_parts.insert(0, module)\n"))
 B('j17_label_guard_on_other_attribute', ['C17'], 'R17.m', (S, _LBL_GUARD, "    if fb.name:\n        ctx_parts.insert(0, fb.module)\n"))
+
+# R17.n: the text classification is total -- a call that is handed the endpoint's text and can raise for some texts (a
+# parser: ValueError *and* RecursionError; a partial codec) lies under a handler for every class it can raise.  The JSON
+# guess is followed through try statements (R17.b keeps judging the bracket pairs of every accepting return).
+_IMP = 'import itertools\n'
+
+
+def _gj_parse(handler, call='json.loads(bytestr)', tail='            return False\n', imp='import json\n', pre=''):
+    return [(RS, _IMP, _IMP + imp),
+            (RS, _GJ, "        if bytestr[:1] + bytestr[-1:] not in (b'{}', b'[]'):\n            return False\n" + pre +
+                      "        try:\n            %s\n        except %s:\n%s        return True\n" % (call, handler, tail))]
+
+
+T('j17_total_parse_contained', ['C17'], *_gj_parse('(ValueError, RecursionError)'))
+T('j17_total_parse_except_exception', ['C17'], *_gj_parse('Exception'))
+T('j17_total_parse_runtime_error', ['C17'], *_gj_parse('(ValueError, RuntimeError)'))
+T('j17_total_parse_named_classes', ['C17'], *_gj_parse('_NOT_JSON', imp='import json\n\n_NOT_JSON = (ValueError, RecursionError)\n'))
+T('j17_total_parse_decoder_object', ['C17'], *_gj_parse('(ValueError, RecursionError)', call='_DECODER.decode(bytestr.decode("utf-8", "replace"))',
+                                                         imp='import json\n\n_DECODER = json.JSONDecoder()\n'))
+T('j17_total_helper_contained_at_call_site', ['C17'],
+  *(_gj_parse('(ValueError, RecursionError)', call='parses_as_json(bytestr)') +
+    [(RS, 'class JSONRender(object):\n', 'def parses_as_json(data):\n    json.loads(data)\n\n\nclass JSONRender(object):\n')]))
+T('j17_total_decode_every_byte', ['C17'],
+  (RS, "            if self._guess_json(context):\n", "            head = context[:168].decode('latin-1')\n            if self._guess_json(context):\n"))
+T('j17_total_decode_lenient', ['C17'],
+  (RS, "            if self._guess_json(context):\n", "            head = context[:168].decode('utf-8', errors='replace')\n            if self._guess_json(context):\n"))
+B('j17_total_parse_value_error_only', ['C17'], 'R17.n', *_gj_parse('ValueError'))
+B('j17_total_parse_json_decode_error', ['C17'], 'R17.n', *_gj_parse('json.JSONDecodeError'))
+B('j17_total_parse_recursion_only', ['C17'], 'R17.n', *_gj_parse('RecursionError'))
+B('j17_total_parse_named_classes_narrow', ['C17'], 'R17.n', *_gj_parse('_NOT_JSON', imp='import json\n\n_NOT_JSON = (ValueError, TypeError)\n'))
+B('j17_total_parse_handler_raises_again', ['C17'], 'R17.n',
+  *_gj_parse('(ValueError, RecursionError)', tail="            raise ValueError('not JSON')\n"))
+B('j17_total_literal_eval', ['C17'], 'R17.n',
+  *_gj_parse('(ValueError, SyntaxError)', call="ast.literal_eval(bytestr.decode('latin-1'))", imp='import ast\n'))
+B('j17_total_helper_call_site_narrow', ['C17'], 'R17.n',
+  *(_gj_parse('ValueError', call='parses_as_json(bytestr)') +
+    [(RS, 'class JSONRender(object):\n', 'def parses_as_json(data):\n    json.loads(data)\n\n\nclass JSONRender(object):\n')]))
+B('j17_total_decode_unguarded', ['C17'], 'R17.n',
+  (RS, "            if self._guess_json(context):\n", "            head = context[:168].decode('utf-8')\n            if self._guess_json(context):\n"))
+B('j17_total_encode_ascii', ['C17'], 'R17.n', (RS, "            context = context.encode('utf8')\n", "            context = context.encode('ascii')\n"))
+B('j17_total_parse_decoder_object_narrow', ['C17'], 'R17.n',
+  *_gj_parse('ValueError', call='_DECODER.decode(bytestr.decode("utf-8", "replace"))', imp='import json\n\n_DECODER = json.JSONDecoder()\n'))
+# R17.b in the try shapes
+B('j17_gj_parse_without_bracket_test', ['C17'], 'R17.b', (RS, _IMP, _IMP + 'import json\n'),
+  (RS, _GJ, "        try:\n            json.loads(bytestr)\n        except (ValueError, RecursionError):\n            return False\n        return True\n"))
+_GJ_IDX = ("        try:\n            first, last = bytestr[0], bytestr[-1]\n        except IndexError:\n            return %s\n"
+           "        return (first, last) in ((123, 125), (91, 93))\n")
+T('j17_gj_index_error_handler', ['C17'], (RS, _GJ, _GJ_IDX % 'False'))
+B('j17_gj_index_error_means_json', ['C17'], 'R17.b', (RS, _GJ, _GJ_IDX % 'True'))
+B('j17_gj_parse_failure_means_json', ['C17'], 'R17.b', (RS, _IMP, _IMP + 'import json\n'),
+  (RS, _GJ, "        try:\n            json.loads(bytestr)\n        except (ValueError, RecursionError):\n            return True\n"
+            "        return bytestr[:1] + bytestr[-1:] in (b'{}', b'[]')\n"))
+
+# R17.l, kinds of chunks: "+", len(), indexing on the chunks of a JSON / JSONP body only where every operand is a
+# materialised sequence of one kind on every path (streaming flag true / false)
+_JR_BODY = "        if self.streaming:\n" + _JR_STREAM + "        else:\n" + _JR_WHOLE + "        resp = Response(json_iter, mimetype=\"application/json\")\n"
+_JR_HELPER = ("    def _chunks(self, context):\n        if self.streaming:\n            return self.json_encoder.iterencode(context)\n"
+              "        return [self.json_encoder.encode(context)]\n\n    def __call__(self, context):\n"
+              "        resp = Response(self._chunks(context), mimetype=\"application/json\")\n")
+_JR_DEF = "    def __call__(self, context):\n"
+_JP_COND = "        json_iter = self.json_encoder.iterencode(context) if self.streaming else [self.json_encoder.encode(context)]\n"
+_PLUS = "        resp_iter = [cb_name, '('] + json_iter + [');']\n"
+T('j17_kinds_helper_chained', ['C17'], (RS, _JR_DEF + _JR_BODY, _JR_HELPER),
+  (RS, _JP_JSON + _JP_CHAIN, "        resp_iter = itertools.chain([cb_name, '('], self._chunks(context), [');'])\n"))
+T('j17_kinds_helper_materialised', ['C17'], (RS, _JR_DEF + _JR_BODY, _JR_HELPER),
+  (RS, _JP_JSON + _JP_CHAIN, "        resp_iter = [cb_name, '('] + list(self._chunks(context)) + [');']\n"))
+T('j17_kinds_same_flag_on_both_sides', ['C17'],
+  (RS, _JP_JSON + _JP_CHAIN, _JP_COND + "        if self.streaming:\n    " + _JP_CHAIN + "        else:\n    " + _PLUS))
+T('j17_kinds_buffered_jsonp', ['C17'], (RS, _JP_JSON + _JP_CHAIN, "        json_iter = [self.json_encoder.encode(context)]\n" + _PLUS))
+T('j17_kinds_len_of_buffered_body', ['C17'],
+  (RS, "        resp = Response(json_iter, mimetype=\"application/json\")\n",
+       "        resp = Response(json_iter, mimetype=\"application/json\")\n        if not self.streaming:\n"
+       "            resp.headers['X-Chunks'] = str(len(json_iter))\n"))
+B('j17_kinds_helper_concatenated', ['C17'], 'R17.l', (RS, _JR_DEF + _JR_BODY, _JR_HELPER),
+  (RS, _JP_JSON + _JP_CHAIN, "        resp_iter = [cb_name, '('] + self._chunks(context) + [');']\n"))
+B('j17_kinds_list_plus_iterencode', ['C17'], 'R17.l', (RS, _JP_CHAIN, _PLUS))
+B('j17_kinds_conditional_body_concatenated', ['C17'], 'R17.l', (RS, _JP_JSON + _JP_CHAIN, _JP_COND + _PLUS))
+B('j17_kinds_flag_inverted_on_one_side', ['C17'], 'R17.l',
+  (RS, _JP_JSON + _JP_CHAIN, _JP_COND + "        if not self.streaming:\n    " + _JP_CHAIN + "        else:\n    " + _PLUS))
+B('j17_kinds_tuple_plus_list', ['C17'], 'R17.l',
+  (RS, _JP_JSON + _JP_CHAIN, "        json_iter = [self.json_encoder.encode(context)]\n        resp_iter = (cb_name, '(') + json_iter + (');',)\n"))
+B('j17_kinds_len_of_stream', ['C17'], 'R17.l',
+  (RS, "        resp = Response(json_iter, mimetype=\"application/json\")\n",
+       "        resp = Response(json_iter, mimetype=\"application/json\")\n        resp.headers['X-Chunks'] = str(len(json_iter))\n"))
+B('j17_kinds_first_chunk_of_stream', ['C17'], 'R17.l',
+  (RS, "        resp = Response(json_iter, mimetype=\"application/json\")\n",
+       "        resp = Response(json_iter, mimetype=\"application/json\")\n        resp.headers['X-First'] = str(len(json_iter[0]))\n"))
+B('j17_kinds_generator_expression_concatenated', ['C17'], 'R17.l',
+  (RS, _JP_JSON + _JP_CHAIN, "        json_iter = (chunk for chunk in self.json_encoder.iterencode(context))\n" + _PLUS))
+B('j17_kinds_public_helper_concatenated', ['C17'], 'R17.l', (RS, _JR_DEF + _JR_BODY, _JR_HELPER.replace('_chunks', 'chunks')),
+  (RS, _JP_JSON + _JP_CHAIN, "        resp_iter = [cb_name, '('] + self.chunks(context) + [');']\n"))
+B('j17_kinds_public_helper_flag_inverted', ['C17'], 'R17.l', (RS, _JR_DEF + _JR_BODY, _JR_HELPER.replace('_chunks', 'chunks')),
+  (RS, _JP_JSON + _JP_CHAIN, "        if not self.streaming:\n            resp_iter = itertools.chain([cb_name, '('], self.chunks(context), [');'])\n"
+                             "        else:\n            resp_iter = [cb_name, '('] + self.chunks(context) + [');']\n"))
+# the serialization delegated to a method the front-end does not dissolve: followed through its returns (provenance and kinds)
+_JR_PUBLIC = _JR_HELPER.replace('_chunks', 'chunks')
+T('j17_kinds_public_helper_chained', ['C17'], (RS, _JR_DEF + _JR_BODY, _JR_PUBLIC),
+  (RS, _JP_JSON + _JP_CHAIN, "        resp_iter = itertools.chain([cb_name, '('], self.chunks(context), [');'])\n"))
+T('j17_kinds_public_helper_same_flag', ['C17'], (RS, _JR_DEF + _JR_BODY, _JR_PUBLIC),
+  (RS, _JP_JSON + _JP_CHAIN, "        if self.streaming:\n            resp_iter = itertools.chain([cb_name, '('], self.chunks(context), [');'])\n"
+                             "        else:\n            resp_iter = [cb_name, '('] + self.chunks(context) + [');']\n"))
+B('j17_body_public_helper_other_encoder', ['C17'], 'R17.l',
+  (RS, _JR_DEF + _JR_BODY, _JR_PUBLIC.replace("return [self.json_encoder.encode(context)]", "return [JSONEncoder().encode(context)]")))
+B('j17_body_public_helper_falls_off', ['C17'], 'R17.l',
+  (RS, _JR_DEF + _JR_BODY, _JR_PUBLIC.replace("        return [self.json_encoder.encode(context)]\n", "        if context is not None:\n            return [self.json_encoder.encode(context)]\n")))
+B('j17_body_public_helper_gets_str', ['C17'], 'R17.l',
+  (RS, _JR_DEF + _JR_BODY, _JR_PUBLIC.replace("Response(self.chunks(context)", "Response(self.chunks(str(context))")))
